@@ -250,13 +250,23 @@ def run_case(spec, j):
       try:
         api.set_judge(j, well_formed=True)
         f.fit()
-        c.fit(*f.args, **f.kwargs)
       except Exception as ex:
         api.set_well_formed(False)
         j.skip('fit', 'raised-%s' % type(ex).__name__)
         continue
       finally:
         api.set_well_formed(False)
+      try:
+        c.fit(*f.args, **f.kwargs)
+      except Exception as ex:
+        if name.startswith('SDML') and isinstance(ex, RuntimeError):
+          j.skip('fit', 'sdml-solver-failure')
+        else:
+          j.violated('C18.clone-same-model',
+                     dict(det0, params=s['params'], why='the original fitted, '
+                          'its clone raised', raised=repr(ex)[:200]),
+                     mechanism='clone-fit-raised')
+        continue
     Ma, Mb = f.est.get_mahalanobis_matrix(), c.get_mahalanobis_matrix()
     j.close('C18.clone-same-model', Mb, Ma,
             1e-9 * max(np.abs(Ma).max(), 1e-300), dict(det0, params=s['params']))
